@@ -121,3 +121,12 @@ BENIGN += [
     (TREE, "(TreeOp::Input(a), TreeOp::Input(b)) => {\n                    if *a != *b {\n                        return false;\n                    }\n                }", "(TreeOp::Input(va), TreeOp::Input(vb)) => {\n                    if va != vb {\n                        return false;\n                    }\n                }", "TreeOp::eq: rename bindings, drop the derefs"),
     (TREE, "// Pointer equality lets us short-circuit deep checks\n            if std::ptr::eq(a, b) {\n                continue;\n            }", "// Same allocation: nothing to compare below this pair\n            if std::ptr::eq(a, b) {\n                continue;\n            }", "TreeOp::eq: reword a comment"),
 ]
+
+LRU = "fidget-core/src/compiler/lru.rs"
+
+BENIGN += [
+    (LRU, "let node = self.data[i as usize];\n        self.data[node.prev as usize].next = self.data[i as usize].next;\n        self.data[node.next as usize].prev = self.data[i as usize].prev;", "let n = self.data[usize::from(i)];\n        self.data[usize::from(n.prev)].next = n.next;\n        self.data[usize::from(n.next)].prev = n.prev;", "Lru::remove: rename, usize::from, read the copied node"),
+    (LRU, "self.data[prev as usize].next = i;\n        self.data[next as usize].prev = i;", "self.data[next as usize].prev = i;\n        self.data[prev as usize].next = i;", "Lru::insert_before: swap two writes that do not feed each other"),
+    (LRU, "let prev_newest = self.head;\n        if prev_newest == i {\n            return;\n        } else if self.data[prev_newest as usize].prev != i {", "if self.head == i {\n            return;\n        }\n        if self.data[self.head as usize].prev != i {", "Lru::poke: inline the local, split the else-if"),
+    (LRU, "let out = self.data[self.head as usize].prev;\n        self.head = out; // rotate\n        out", "let oldest = self.data[self.head as usize].prev;\n        self.head = oldest;\n        oldest", "Lru::pop: rename"),
+]
